@@ -10,12 +10,12 @@ CHECKS = {
  "C02": ("MC_Query", "expansion through any prefix/synonym incl. the empty prefix and multi-character delimiters; expand/expand_pair/expand_reference/expand_all/expand_pair_all compared with the spec and with the declarative statement on logged answers"),
  "C03": ("MC_Query", "round-trip laws between compress, expand, expand_all, standardize_* evaluated on logged answers (closure strings are probed too); prefix-free and non-prefix-free maps both occur"),
  "C04": ("MC_Build", "every sequence (all orders, repetitions) of <=3 clash-rich records through the strict constructor and the loaders: outcome class, reported clash pairs, bimap inverse, one owner"),
- "C05": ("MC_Incr", "every history of <=3 add_record calls x 4 flag combinations from any 1-record converter (step law as TLC action property), replayed with a fresh construction after every step; five indexes compared one by one"),
+ "C05": ("MC_Incr", "every history of <=3 add_record calls x 4 flag combinations (narrow pools, deep) and every single add over all one-synonym records (wide, shallow); step law as TLC action property; an Apalache inductive step over UNBOUNDED strings; behaviours selected by the specification's branch signatures and replayed with a fresh construction after every step; five indexes compared one by one"),
  "C06": ("MC_Query", "standardize_prefix/curie/uri canonical, idempotent, meaning-preserving: declarative formulas on logged answers"),
  "C07": ("MC_Query", "derived operations vs the two primitive parsers, incl. strings that are both CURIE and URI (pool contains the URI prefix 'a:' and the CURIE prefix 'a')"),
  "C08": ("MC_Query", "whole strict x passthrough matrix of the 14 functions: mode laws on logged outcomes incl. exception family"),
  "C09": ("MC_Derive", "chain (both case modes, both orders) and get_subconverter (every prefix subset) over all pairs of base converters: union, grouping, priority, case-fold separation, restriction"),
- "C10": ("MC_Derive + MC_Remap", "frame condition: after EVERY step the projection of EVERY live converter is compared with its previous one (all six derivations, follow-up merging adds on the derived converter)"),
+ "C10": ("MC_Derive + MC_Remap", "frame condition as TLC action property; after EVERY step the projection of EVERY live converter is compared with its previous one (all six derivations, follow-up merging adds on the derived converter, long tlc -simulate behaviours deriving from derived converters)"),
  "C11": ("MC_Remap", "every partial map over 4 names x every strict converter of <=2 records with <=1 synonym: documented errors, no prefix lost, URI side untouched"),
  "C12": ("MC_Derive", "every injective map (<=1 pair quick, <=2 thorough) for remap_uri_prefixes and rewire; rewire applied twice for idempotence"),
  "C13": ("MC_Build", "every small prefix map / priority map / reverse map / JSON-LD context / non-bijective map for upgrade_prefix_map, all dictionary orders; loading via object, str path and Path"),
@@ -41,7 +41,8 @@ def main():
             "engine": "tlc",
             "level_claimed": {"category": "model_checking", "design_ref": "DESIGN.md §6 " + pid,
                               "text": f"TLC checks the declarative statement against the operational specification on the bounded model {model} ({text}); "
-                                      "TLC-generated behaviours and seeded random behaviours beyond the bounds are executed on /repo/src and every recorded "
+                                      "TLC-generated behaviours (chosen so that every branch signature of the specification is represented), seeded random behaviours beyond the bounds "
+                                      "and, where it applies, the repository's own tests run under a recorder are executed on /repo/src and every recorded "
                                       "trace is validated against the same specification (conformance of outcome, post-state and answers; property monitors on logged values)."},
             "level_note": "bounded (constants in the evidence file); trusts TLC, the CommunityModules JSON reader, Python's str.casefold and the recorder's projection of public attributes; spec models the behaviour after the fix: commits listed in known_findings.json",
             "technique": "TLA+ specification model-checked with TLC + spec-to-code replay + trace validation against the spec",
